@@ -89,12 +89,18 @@ func main() {
 		recv := c.Ra + lib.FromCodePoints(c.Rc)
 		forest, res := mr1Forest, lib.AsResources(mr1)
 		var mkOpts func() []fhirpath.EvaluateOption
+		var buildErr lib.Outcome
 		switch c.Sk {
 		case "lit":
 		case "env":
 			v, err := systemValue(c.X)
 			if err != nil {
-				lib.Fatal("case %s: %v", c.ID, err)
+				// The System value of a temporal item or a quantity can only be built through
+				// the repository's own parsers (unexported fields). A parser that rejects the
+				// canonical rendering of a pool item is an observation about the code, not a
+				// harness failure: record it as the outcome of every program of the case (the
+				// judge then reports the source as not denoting its item).
+				buildErr = lib.Outcome{"k": "err", "cls": []string{}, "msg": lib.Ascii("harness could not build the environment value through system.Parse*: " + err.Error())}
 			}
 			mkOpts = func() []fhirpath.EvaluateOption {
 				return []fhirpath.EvaluateOption{evalopts.EnvVariable("x", v)}
@@ -119,6 +125,9 @@ func main() {
 			lib.Fatal("case %s: unknown source kind %q", c.ID, c.Sk)
 		}
 		eval := func(src string) lib.Outcome {
+			if buildErr != nil {
+				return buildErr
+			}
 			var opts []fhirpath.EvaluateOption
 			if mkOpts != nil {
 				opts = mkOpts()
